@@ -3,10 +3,10 @@
    nat, positive, N and Z stay the extracted inductives. No Extract Constant of our own. *)
 From Coq Require Extraction ExtrOcamlBasic ExtrOcamlString.
 From Coq Require Import List String ZArith.
-From GG Require Import Base.Strs Model.Codes Model.IgnoreSet Model.GoTypes Model.GoAst Extracted Exec Proofs.OpsProofs.
+From GG Require Import Base.Strs Model.Codes Model.IgnoreSet Model.GoTypes Model.GoAst Extracted Exec Proofs.OpsProofs Proofs.LocalProofs.
 Extraction Language OCaml.
 Extraction "model.ml" x_all x_tokens_for x_is_run x_is_contains x_is_spec x_doc_url
   x_truncate x_display_col x_window x_rep_format
   x_cfg_resolve x_cfg_from_env x_parse_bool x_should_skip
   x_parse_implements x_parse_constructor x_parse_immutable x_parse_testonly x_parse_mutable x_parse_packageonly x_parse_ignore x_re_find
-  x_read_all x_ignore_ops x_analyze x_impl x_identical x_signatures_match x_wf_package x_ignore_hyp x_lines_ok x_pos_ok line_of.
+  x_read_all x_ignore_ops x_analyze x_impl x_identical x_signatures_match x_wf_package x_ignore_hyp x_lines_ok x_pos_ok x_ranges_ok x_impl_inputs_ok line_of.
